@@ -3,7 +3,7 @@
 set -e
 src=$1; name=$2; d=/verif/seeded/$name
 mkdir -p $d
-cp $src/patch.diff $src/demo.py $src/NOTES.md $d/ 2>/dev/null || true
+cp $src/patch.diff $src/*.py $src/NOTES.md $d/ 2>/dev/null || true
 [ -d $src/inputs ] && cp -r $src/inputs $d/ || true
 echo "== $name"; grep "^[-+]" $d/patch.diff | grep -v "^+++\|^---" | head -14
 python3 /verif/tools/seed.py confirm $d | grep "confirmed\|_rc" || true
